@@ -63,6 +63,7 @@ type TypeSpec struct {
 	Guarded     map[string]string // field -> mutex field
 	ClosesUnder map[string]string // channel field -> mutex field
 	Final       []FinalSpec       // fields written only while their object is being constructed
+	KeptAlive   []FinalSpec       // methods during which the receiver must stay reachable (a finalizer is set on it)
 }
 
 type FinalSpec struct {
@@ -830,6 +831,14 @@ func ParseSpecFile(path string, pkg string, requirePrefix bool) (*SpecFile, erro
 					return nil, fail(l.no, "final outside a type block")
 				}
 				curType.Final = append(curType.Final, FinalSpec{Fields: splitNames(rest), Tags: cl.Tags, Line: l.no})
+				continue
+			case "kept_alive_during":
+				// kept_alive_during[tags] M1, M2 -- a finalizer set on values of this type ends the call,
+				// so the receiver has to stay reachable while these methods run
+				if curType == nil {
+					return nil, fail(l.no, "kept_alive_during outside a type block")
+				}
+				curType.KeptAlive = append(curType.KeptAlive, FinalSpec{Fields: splitNames(rest), Tags: cl.Tags, Line: l.no})
 				continue
 			case "known":
 				// known <finding id> attaches to previous clause
